@@ -108,6 +108,9 @@ def run_case(case, ctx):
             elif o[1] != run.contents[ci]:
                 ctx.violation("referenced-object-altered", f"after {d}: retrieve_object({p!r}) returned "
                               f"{seq._short(o[1])} instead of {seq._short(run.contents[ci])}", {"op": k})
+    dp = run.decoy_problem()
+    if dp:
+        ctx.violation("file-outside-the-store-touched", f"{dp}; history: {[(o['op'], o.get('pid')) for o in case['ops']][:14]}", {"aspect": "escape"})
     if events:
         ctx.nontrivial(trace)
         ctx.sample({"ops": [c05b(o) for o in case["ops"][:14]], "sharing_events": events[:6]})
